@@ -82,6 +82,16 @@ CHECKS = {
        "mixtures, sequences of downlinks) with state snapshots, and an independent oracle decoding the next two uplinks (order, copies, sticky) and checking ACK => effect / NAK => unchanged.",
   note=COMMON_NOTE + "Regional validity (band limits, defined data rates, offset limits) in the theorems refers to the tables regenerated from /repo by tools/rs2v/regiontables.py; TX power index ranges likewise. NbTrans is not implemented by the stack and not judged.",
   tech="machine-checked proof in Coq (per-command atomicity lemmas) + translator-regenerated regional tables + exhaustive-field MAC-history correspondence + independent answer/effect oracle", ref="6 C08"),
+ "C10": dict(
+  text="Coq theorems (Props/C10.v): the RX1 data-rate function of each of the 9 regions equals the RP002 rule (EU/AS/IN: max(dr-off,0); US915: min(13,max(8,10+dr-off)); AU915: "
+       "min(13,max(8,8+dr-off))) on the whole scope where RP002 defines it (sweep of all 9x16x8 inputs of the regenerated tables, lifted by forallb_forall) and is TOTAL (no panic, "
+       "a region-defined LoRa data rate) on all 16x8 inputs; for every MAC state and TX configuration rx_windows yields RX1 on the downlink frequency paired with the channel actually "
+       "used at the table rate of the data rate actually used, RX2 on the negotiated-or-default frequency/data rate, both by value; delays: RX1 = negotiated delay, RX2 = RX1 + 1 s, "
+       "join 5 s / 6 s; Class C listens on the RX2 parameters; fixed plans pair uplink channel n with downlink channel n mod 8. Tied to the code by MAC histories over every region x "
+       "uplink data rate x RX1 offset 0..7 x RX2 overrides x RxDelay 0..15 x DlChannelReq, joins over the fixed-plan channels, Class C; an oracle written from RP002 judges every TX's windows; "
+       "both front-ends' Timer::at / TimeoutRequest arguments are checked against delay + end-of-TX - lead for every RxDelay.",
+  note=COMMON_NOTE + "The radio's own symbol timeout / preamble detection is outside (C17). Front-end timing arithmetic is checked on the implementation with a scripted timer, not proved.",
+  tech="machine-checked proof in Coq (regional window functions vs RP002 rules, total over all inputs) + translator-regenerated region tables + MAC-history correspondence + RP002 oracle + front-end timer oracle", ref="6 C10"),
  "C12": dict(
   text="Coq theorems (Props/C12.v): the session model refines the abstract ADR/ACK machine of Spec/AdrSpec.v: every data uplink is the byte-exact spec frame of a description carrying the "
        "session address, the requested message type, the current counter and (ADR, ADRACKReq, ACK) = the spec's bits (ADRACKReq iff ADR on, >= 64 uplinks since an accepted downlink "
